@@ -90,16 +90,30 @@ theorem encode_append_ge80 (ch rest : Bytes) (h : ∀ b ∈ ch, 0x80 ≤ b) : en
     rw [List.cons_append, encode_cons, encByte_ge80 b (h b (by simp)), ih (fun x hx => h x (by simp [hx]))]
     rfl
 
-theorem dqBody_append_ge80 (ind ch rest : Bytes) (h : ∀ b ∈ ch, 0x80 ≤ b) :
-    dqBody ind (ch ++ rest) = ch ++ dqBody ind rest := by
+theorem dqBody_false_append_ge80 (n : Nat) (ch rest : Bytes) (h : ∀ b ∈ ch, 0x80 ≤ b) :
+    dqBody n false (ch ++ rest) = ch ++ dqBody n false rest := by
   induction ch with
   | nil => rfl
   | cons b bs ih =>
     have hb := h b (by simp)
     have h10 : b ≠ 10 := ge80_ne b hb 10 (by decide)
+    have h32 : (b == 32) = false := by simpa using ge80_ne b hb 32 (by decide)
     rw [List.cons_append, dqBody]
-    simp only [beq_iff_eq, h10, if_false]
+    simp only [beq_iff_eq, h10, if_false, h32]
     rw [encByte_ge80 b hb, ih (fun x hx => h x (by simp [hx]))]
+    rfl
+
+theorem dqBody_append_ge80 (n : Nat) (sp : Bool) (ch rest : Bytes) (h2 : 2 ≤ ch.length) (h : ∀ b ∈ ch, 0x80 ≤ b) :
+    dqBody n sp (ch ++ rest) = ch ++ dqBody n false rest := by
+  cases ch with
+  | nil => simp at h2
+  | cons b bs =>
+    have hb := h b (by simp)
+    have h10 : b ≠ 10 := ge80_ne b hb 10 (by decide)
+    have h32 : (b == 32) = false := by simpa using ge80_ne b hb 32 (by decide)
+    rw [List.cons_append, dqBody]
+    simp only [beq_iff_eq, h10, if_false, h32]
+    rw [encByte_ge80 b hb, dqBody_false_append_ge80 n bs rest (fun x hx => h x (by simp [hx]))]
     rfl
 
 /-! ### lexer side: one-step equations of the double-quoted state -/
